@@ -150,6 +150,23 @@ def correspondence(rep, ctx):
             if abs(F(a[k]) - F(b[k])) > Fraction(5, 10**14) * max(F(a[k]), F(b[k])):
                 fail(desc, f"Inventory gives {k}: {a[k]!r}, InventoryHP gives {b[k]!r}")
                 break
+    # atom counts given as Python ints (exact), from small to beyond 2**63 and 2**64: shares of the exact integers
+    for amts in ((3, 5), (10**19, 10**19), (6 * 10**18, 4 * 10**18, 2 * 10**18), (2**63, 1, 2**62), (10**25, 3 * 10**25), (2**64, 2**64 + 1)):
+        names_ = [view.names[i] for i in r.sample([i for i in range(view.n) if view.rate[i] != 0], len(amts))]
+        cont = dict(zip(names_, amts))
+        tot_ = sum(amts)
+        for C in (rd.Inventory, rd.InventoryHP):
+            desc = f"{C.__name__}({cont!r}, 'num').mole_fractions()"
+            rep.case(("int-amounts", C.__name__, amts))
+            gen._count("fractions:python-int-amounts")
+            try:
+                fr_ = C(dict(cont), "num").mole_fractions()
+                for n_, a in cont.items():
+                    if abs(F(fr_[n_]) - Fraction(a, tot_)) > Fraction(1, 10**14):
+                        fail(desc, f"{n_}: {fr_[n_]!r}, the share of the integers is {float(Fraction(a, tot_))!r}")
+                        break
+            except Exception as e:  # noqa: BLE001
+                fail(desc, f"raised {type(e).__name__}: {e}")
     # amounts spanning many orders of magnitude, given in a large unit and as the 1e12-times larger numbers in the small one:
     # the fractions are the input shares, the same in both classes and whichever unit was used
     for k_ in range(20 if thorough else 6):
